@@ -30,15 +30,16 @@ import (
 )
 
 type c01aParam struct {
-	Format    string `json:"format"`                    // fasta, fastq, genbank, embl, fasta-to-fasta, entry-{fasta,fastq,genbank,embl}
-	FullBatch bool   `json:"full_file_batch,omitempty"` // entry-*: OptionsFullFileBatch(true)
-	NRec      int    `json:"nrec"`
-	Buf       int    `json:"buffer_size"`
-	Workers   int    `json:"workers"`
-	Mode      string `json:"mode"`
-	Bound     int    `json:"bound"`
-	Policy    int    `json:"policy"`
-	Choices   []int  `json:"choices,omitempty"`
+	Format    string   `json:"format"`                    // fasta, fastq, genbank, embl, fasta-to-fasta, entry-{fasta,fastq,genbank,embl}
+	FullBatch bool     `json:"full_file_batch,omitempty"` // entry-*: OptionsFullFileBatch(true)
+	NRec      int      `json:"nrec"`
+	Buf       int      `json:"buffer_size"`
+	Workers   int      `json:"workers"`
+	Mode      string   `json:"mode"`
+	Bound     int      `json:"bound"`
+	Policy    int      `json:"policy"`
+	Choices   []int    `json:"choices,omitempty"`
+	Conflicts []string `json:"conflicts,omitempty"` // racy-access sites that were scheduling points (replay)
 }
 
 type c01aRec struct{ id, seq, qual, taxid string }
@@ -309,7 +310,7 @@ func TestVerifC01A(t *testing.T) {
 		}
 		recs := c01aRecords(p.NRec)
 		data := c01aFile(p.Format, recs)
-		x := vsched.RunOncePolicy(p.Policy, p.Choices, 20000, nil, nil, func(x *vsched.Exec) { x.Obs = c01aBody(p, data) })
+		x := vsched.RunOncePolicy(p.Policy, p.Choices, 20000, vsched.ConflictSet(p.Conflicts), nil, func(x *vsched.Exec) { x.Obs = c01aBody(p, data) })
 		msg := check(p, recs)(x)
 		r.Eval(1)
 		if msg != "" {
@@ -436,6 +437,7 @@ func TestVerifC01A(t *testing.T) {
 			seen[key] = true
 			q := p
 			q.Choices = v.Choices
+			q.Conflicts = v.Conflicts
 			r.Violate(key, fmt.Sprintf("%s nrec=%d buffer=%d workers=%d fullfilebatch=%v mode=%s policy=%d schedule=%v: %s", p.Format, p.NRec, p.Buf, p.Workers, p.FullBatch, p.Mode, p.Policy, v.Choices, parts[1]), q)
 		}
 	}
